@@ -1130,6 +1130,26 @@ func PeekClock() (time.Time, bool) {
 	return clockNow, clockSet
 }
 
+// Sleep is the instrumented time.Sleep: the simulated clock moves on by d and the task offers the baton.
+func Sleep(d time.Duration) {
+	if !active || cur == nil {
+		if clockSet {
+			clockMu.Lock()
+			clockNow = clockNow.Add(d)
+			clockMu.Unlock()
+			return
+		}
+		time.Sleep(d)
+		return
+	}
+	clockMu.Lock()
+	if clockSet {
+		clockNow = clockNow.Add(d)
+	}
+	clockMu.Unlock()
+	point(cur, -1, ClsSync, true)
+}
+
 func Since(t time.Time) time.Duration { return Now().Sub(t) }
 func Until(t time.Time) time.Duration { return t.Sub(Now()) }
 
